@@ -9,5 +9,6 @@ mkdir -p .build evidence replays
 (cd tools/extract && go build -o "$HERE/.build/extract" .)
 mkdir -p lean/GoSnaps/Generated
 "$HERE/.build/extract" /repo lean/GoSnaps/Generated || echo "setup: extractor failed on the current tree (checks will report it)"
+python3 tools/extract_selftest.py || echo "setup: extractor self-test failed"
 (cd lean && lake build 2>&1 | tail -5)
 echo "setup done"
